@@ -18,7 +18,7 @@ DRIVERS = ["c12"]
 # Mirror of Model/Issues.v [code_is_fixed].  False = the code as it is (the location suffix is appended on
 # every decoration: finding C12-F1).  After applying the fix (guard "if 'char_index' in error_object: return"
 # at the top of ErrorHandler._update_error_with_char_pos) set both to True.
-FIXED = False
+FIXED = True   # fix: commit 5312cdc is in /repo
 
 TRUSTED = [
     "Model/Issues.v is a hand transcription of hed/errors/error_reporter.py (hed_error/hed_tag_error wrappers, "
